@@ -22,7 +22,8 @@ import time
 VERIF = os.path.dirname(os.path.dirname(os.path.abspath(__file__)))
 SPEC = os.path.join(VERIF, "spec")
 WORK = os.path.join(VERIF, "work")
-EVIDENCE = os.path.join(VERIF, "evidence")
+# (VERIF_EVIDENCE_DIR: only for trying seeded changes, so that such runs do not overwrite the evidence of the real tree)
+EVIDENCE = os.environ.get("VERIF_EVIDENCE_DIR") or os.path.join(VERIF, "evidence")
 REPO = os.environ.get("VERIF_REPO", "/repo")
 TLA_CP = "/opt/veriftools/tla/tla2tools.jar:/opt/veriftools/tla/CommunityModules-deps.jar"
 KNOWN_FINDINGS_PATH = os.path.join(VERIF, "known_findings.json")
